@@ -66,6 +66,13 @@ func c11Packet(c *sim.Ctx) (mq.Packet, *ref.AP, string) {
 	if pi := sim.Guard(func() { p, c11Recipe, err = drv.BuildR(a, t, false) }); pi != nil || err != nil {
 		return nil, a, how
 	}
+	if how == "built" && t.Bool(1, 8) {
+		// the object then serves as the receiver of a decode of a damaged body (which
+		// may fail half way): whatever state that leaves, it is the packet of this run
+		afterFailedDecode(c, p)
+		c11Recipe = nil
+		return p, a, "built, then receiver of a decode of a damaged body"
+	}
 	return p, a, how
 }
 
